@@ -665,4 +665,20 @@ theorem pipeline_entries (s : Screen) (pid : Nat) (batch : List Int) (n : Nat) (
   simp only [Function.comp_def, hent i hi']
   exact htot i (inp i)
 
+/-- what a filtering policy (or no policy) allows is among the candidates -/
+theorem eligible_sub (s : Screen) (policy : Option Policy) (hpol : PolicyFilters policy) (batch : List Int) :
+    ∀ x, x ∈ eligible s policy batch → x ∈ candidates s batch := by
+  intro x hx
+  unfold eligible at hx
+  cases policy with
+  | none => exact hx
+  | some f => exact hpol f rfl _ _ x hx
+
+/-- the candidates for a batch are candidates for every smaller batch -/
+theorem candidates_mono (s : Screen) (b0 batch : List Int) (hb : ∀ x, x ∈ b0 → x ∈ batch) :
+    ∀ p, p ∈ candidates s batch → p ∈ candidates s b0 := by
+  intro p hp
+  have := (mem_candidates s batch p).mp hp
+  exact (mem_candidates s b0 p).mpr ⟨this.1, this.2.1, fun h => this.2.2 (hb p h)⟩
+
 end Batchie.Lemmas.Scores
